@@ -59,7 +59,7 @@ class World:
         k = self.sk + self.rng.choice([0, 0, 0, 1, -1])
         nm = inst(self.last[0], self.last[1], max(1, k))
         rt = self.rng.choice([33, 33, 33, 16, 12])
-        self.lines.append("DELIVER 4:3232235777|5353|0|1|0||" + srv_rec(nm, rtype=rt))
+        self.lines.append("DELIVER 4:3232235777|5353|0|1|0||" + srv_rec(nm, rtype=rt, ttl=self.rng.choice([120, 120, 120, 0, 4500])))
         if k == self.sk and rt == 33:
             self.sk += 1
             self.marks.append(self.now + 2000)
@@ -95,7 +95,7 @@ class World:
     def conflict_host(self):
         k = self.hk + self.rng.choice([0, 0, 1, -1])
         nm = hc.cand(self.local, max(1, k))
-        self.lines.append("DELIVER 4:3232235777|5353|0|1|0||" + hc.arec(nm, self.rng.choice([1, 28]), "4:9"))
+        self.lines.append("DELIVER 4:3232235777|5353|0|1|0||" + hc.arec(nm, self.rng.choice([1, 28]), "4:9", self.rng.choice([120, 120, 120, 0, 4500])))
         if k == self.hk:
             self.hk += 1
             self.marks.append(self.now + 2000)
